@@ -184,6 +184,10 @@ def one_run(hist, pool_names, off, inter, uni_kind='easy'):
                     cur['head'] = comp
         elif ikind == 'clock-advances':
             net.clock.t += 7
+        elif ikind == 'first-peer-socket-dead':
+            # fault injection: the node's socket to its FIRST peer is dead (closed behind the selector's back); sending to
+            # that peer fails - the other peer must still get the found block
+            peers[0].node_sock.closed = True
         elif ikind == 'pool-gains-tx':
             extra = [t for nm, t in menu.items() if nm not in pool_names]
             if extra:
@@ -346,6 +350,8 @@ def configs(ctx):
                             inters += [('competing-block', pos), ('pool-gains-tx', pos)]
                             if off >= 0:
                                 inters += [('clock-advances', pos)]
+                            if off == 0 and pos[1] == 0:
+                                inters += [('first-peer-socket-dead', pos)]
                     if off in (0, 120) and len(sub) <= 1:
                         # two miner processes sharing the watcher: req0 req1 res0 res1 ...; event after operation k
                         inters += [('none', ('two', 0))]
@@ -405,7 +411,7 @@ def run(ctx):
         'samples': [{'history': ledger.hist_str(cfgs[0][0]), 'pool': list(cfgs[0][1]), 'clock_offset': cfgs[0][2], 'event': cfgs[0][3]}],
         'runs': tot['runs'], 'blocks_found': tot['found'], 'runs_skipped': tot['skipped'], 'exhaustive': True,
         'rule': "states = ledger states of a block-tree search (depth %d beyond a funded prefix, forks, head on either branch); "
-                "per state every compatible pool subset of size <= 3 x clock - head time in %s x {no event, clock advances by 7 s, competing block "
+                "per state every compatible pool subset of size <= 3 x clock - head time in %s x {no event, clock advances by 7 s, the socket to the first peer is dead, competing block "
                 "arrives, pool gains a transaction} between work request and result; transitions = complete request/result "
                 "runs of the real MinerWatcher handlers" % (2 if ctx.quick else 3, list(OFFSETS)),
     })
